@@ -369,6 +369,39 @@ fn x86_structured(rng: &mut Rng) -> Vec<u8> {
     b
 }
 
+/// [operand-size / address-size / REX.W / rep prefixes] opcode-with-ModRM ModRM [SIB/disp/imm]:
+/// every addressing form of every ModRM instruction under every size override
+fn x86_modrm(rng: &mut Rng, amd64: bool) -> Vec<u8> {
+    const PFX: [&[u8]; 10] = [&[], &[0x66], &[0x67], &[0x66, 0x67], &[0x48], &[0x67, 0x48], &[0xf3], &[0xf2], &[0x67, 0xf3], &[0x66, 0x48]];
+    let mut ops: Vec<u8> = Vec::new();
+    for base in [0x00u8, 0x08, 0x10, 0x18, 0x20, 0x28, 0x30, 0x38] {
+        ops.extend([base, base + 1, base + 2, base + 3]);
+    }
+    ops.extend([0x62, 0x63, 0x69, 0x6b, 0x80, 0x81, 0x83, 0xc0, 0xc1, 0xc4, 0xc5, 0xc6, 0xc7, 0xf6, 0xf7, 0xfe, 0xff]);
+    ops.extend(0x84u8..=0x8f);
+    ops.extend(0xd0u8..=0xd3);
+    ops.extend(0xd8u8..=0xdf);
+    let mut b: Vec<u8> = Vec::new();
+    let mut pfx = *rng.pick(&PFX);
+    if !amd64 && pfx.contains(&0x48) {
+        pfx = &[0x67];
+    }
+    b.extend_from_slice(pfx);
+    if rng.chance(1, 4) {
+        b.push(0x0f);
+        b.push(rng.next() as u8);
+    } else {
+        b.push(*rng.pick(&ops));
+    }
+    // ModRM: every mod/rm class, the register field random
+    let md = rng.below(4) as u8;
+    let rm = rng.below(8) as u8;
+    b.push((md << 6) | ((rng.below(8) as u8) << 3) | rm);
+    let tail = rng.usize_below(9);
+    b.extend(rng.bytes(tail));
+    b
+}
+
 fn mutate(rng: &mut Rng, arch: Arch, b: &mut Vec<u8>) -> &'static str {
     if b.is_empty() {
         return "empty";
@@ -454,14 +487,24 @@ pub fn generate(run_seed: u64, _index: u64) -> Case {
         5 if arch.addr_bits() == 64 => 0x7fff_ffff_ffff_0000 + rng.below(512) * align,
         _ => (rng.below(1 << 20) * 64 + rng.below(64)) & !(align - 1),
     };
+    // "any address": fixed-width code loaded off its natural alignment now and then (absolute
+    // jumps then land in another alignment class of the same bytes)
+    let address = if !arch.is_x86() && rng.chance(1, 10) { address.wrapping_add(rng.range(1, 3)) } else { address };
     let corp = corpus(arch);
     let mut kind;
     let mut bytes: Vec<u8> = Vec::new();
     match rng.below(10) {
         0 if arch.is_x86() => {
-            kind = "x86-structured".to_string();
-            for _ in 0..rng.range(1, 4) {
-                bytes.extend(x86_structured(&mut rng));
+            if rng.chance(1, 2) {
+                kind = "x86-structured".to_string();
+                for _ in 0..rng.range(1, 4) {
+                    bytes.extend(x86_structured(&mut rng));
+                }
+            } else {
+                kind = "x86-modrm".to_string();
+                for _ in 0..rng.range(1, 4) {
+                    bytes.extend(x86_modrm(&mut rng, arch.addr_bits() == 64));
+                }
             }
         }
         0 | 1 => {
